@@ -281,14 +281,12 @@ def run(repo, rep, tier):
                     rep.check('incomplete', 'output() on the no-parse path carries no algorithm message: %s' % unparse(c)[:70], not carries, c,
                               'an algorithm report can be rendered without a successful parse')
     rep.floor('incomplete', 'returns reachable without a parse', nret, 3)
-    # output() renders algorithm sections only under pkm/kex not None
-    outf_cfg_ok = True
-    for n in walk_no_nested(outf):
-        if isinstance(n, ast.Call) and call_name(n) == 'output_algorithms':
-            from sa.logic import path_condition
-            conds = [(unparse(t), p) for t, p, k in path_condition(n) if k == 'if']
-            ok = ('pkm is not None', True) in conds or ('kex is not None', True) in conds
-            rep.check('incomplete', 'algorithm section guarded by a parsed message: %s' % unparse(n.args[1] if len(n.args) > 1 else n)[:40], ok, n, 'algorithm section rendered without a parsed message guard')
+    # output() renders algorithm sections only for a parsed message: interpreted without one (kex = pkm = None) it must reach no section and return GOOD
+    for json_mode in (False, True):
+        for res in _sections.run_output(repo, 0, json_mode):
+            rep.evals()
+            rep.check('incomplete', 'no algorithm section without a parsed message%s' % (' (JSON)' if json_mode else ''), not res['sections'] and res['returned'] == good and type(res['returned']) is int, outf,
+                      'output() without a parsed message renders sections %s and returns %r' % ([x['alg_type'] for x in res['sections']], res['returned']), stmt='output() without a parsed message')
     # the handler of the parse try returns CONNECTION_ERROR
     for t in walk_no_nested(au):
         if isinstance(t, ast.Try) and any(has_parse(s) for s in t.body if isinstance(s, ast.stmt)):
